@@ -27,6 +27,15 @@ NoNonce == <<-1, -1>>
 \* [ty |-> "ERR", nonce_ack, err] [ty |-> "DISC"] [ty |-> "DISCACK"] [ty |-> "DATA"] (any data-plane frame)
 Syn(n) == [ty |-> "SYN", nonce |-> n]
 SynAck(na, n) == [ty |-> "SYNACK", nonce_ack |-> na, nonce |-> n]
+\* the SYN-ACK a server with configuration cfg sends: it advertises its own limits
+SynAckL(na, n, cfg) == [ty |-> "SYNACK", nonce_ack |-> na, nonce |-> n, rate |-> cfg.rrate, psize |-> cfg.psize, alloc |-> cfg.alloc]
+Field(f, k) == IF k \in DOMAIN f THEN f[k] ELSE 0
+
+\* ------------------------------------------------------------------------ negotiated limits
+(* What each end holds for an established connection: the peer's receive allocation (in whole fragments) and the
+   smaller of its own max_send_rate and the peer's max_receive_rate, taken from the handshake frame it accepted. *)
+FragCeil(n) == ((n + 1447) \div 1448) * 1448
+MinOf(a, b) == IF a < b THEN a ELSE b
 Ack(na) == [ty |-> "ACK", nonce_ack |-> na]
 Err(na, e) == [ty |-> "ERR", nonce_ack |-> na, err |-> e]
 Disc == [ty |-> "DISC"]
@@ -36,14 +45,17 @@ ErrEv(e) == CASE e = "Version" -> "ErrorVersion" [] e = "Config" -> "ErrorConfig
 
 \* ==================================================================================== client
 \* state: [st, nonce, remote, at, left, deadline, disc, T]   st in Pending Active Closing Closed Fin
-ClientInit(nonce, t, T) == [st |-> "Pending", nonce |-> nonce, remote |-> NoNonce, at |-> t + Resend, left |-> Retries, deadline |-> 0, disc |-> "none", T |-> T]
+ClientInitL(nonce, t, T, srate) == [st |-> "Pending", nonce |-> nonce, remote |-> NoNonce, at |-> t + Resend, left |-> Retries, deadline |-> 0, disc |-> "none", T |-> T,
+                                     srate |-> srate, pAlloc |-> 0, pRate |-> 0]      \* srate: its max_send_rate; pAlloc, pRate: what the server advertised
+ClientInit(nonce, t, T) == ClientInitL(nonce, t, T, 0)
+CLimits(c) == [tx_alloc |-> FragCeil(c.pAlloc), rate |-> MinOf(c.srate, c.pRate)]
 
 \* result accumulator: [c |-> state, ev |-> events, out |-> frames]
 CHandle(r, f, t) ==
     LET c == r.c IN
     CASE f.ty = "SYNACK" ->
             IF c.st = "Pending" /\ f.nonce_ack = c.nonce
-            THEN [c |-> [c EXCEPT !.st = "Active", !.remote = f.nonce, !.deadline = t + c.T, !.disc = "none"],
+            THEN [c |-> [c EXCEPT !.st = "Active", !.remote = f.nonce, !.deadline = t + c.T, !.disc = "none", !.pAlloc = Field(f, "alloc"), !.pRate = Field(f, "rate")],
                   ev |-> Append(r.ev, "Connect"), out |-> Append(r.out, Ack(f.nonce))]
             ELSE IF c.st = "Active" /\ f.nonce_ack = c.nonce /\ (ReAckAnyNonce \/ f.nonce = c.remote)
             THEN [r EXCEPT !.out = Append(@, Ack(f.nonce))]
@@ -93,9 +105,10 @@ ClientDisconnect(c, now) ==      \* Client::disconnect / disconnect_now
     ELSE c
 
 \* ==================================================================================== server
-\* configuration: [maxActive, maxTotal, herr, T, psize, alloc]
-\* per address: [st, local, remote, at, left, deadline, disc]   st in None Pending Active Closing Closed
-NoEntry == [st |-> "None", local |-> NoNonce, remote |-> NoNonce, at |-> 0, left |-> 0, deadline |-> 0, disc |-> "none"]
+\* configuration: [maxActive, maxTotal, herr, T, psize, alloc, rate, rrate]   (rate = max_send_rate, rrate = max_receive_rate)
+\* per address: [st, local, remote, at, left, deadline, disc, pAlloc, pRate]   st in None Pending Active Closing Closed
+NoEntry == [st |-> "None", local |-> NoNonce, remote |-> NoNonce, at |-> 0, left |-> 0, deadline |-> 0, disc |-> "none", pAlloc |-> 0, pRate |-> 0]
+SLimits(e, cfg) == [tx_alloc |-> FragCeil(e.pAlloc), rate |-> MinOf(cfg.rate, e.pRate)]
 Tracked(e) == e.st # "None"
 
 \* accumulator: [s |-> [addr -> entry], ev |-> seq of <<addr, event>>, out |-> seq of <<addr, frame>>]
@@ -113,8 +126,9 @@ SHandle(r, a, f, t, cfg, fresh) ==
                  THEN [r EXCEPT !.out = Append(@, <<a, Err(f.nonce, "ServerFull")>>), !.ev = IF cfg.herr THEN Append(@, <<a, "ErrorServerFull">>) ELSE @]
             ELSE IF f.alloc < cfg.psize \/ f.psize > cfg.alloc
                  THEN [r EXCEPT !.out = Append(@, <<a, Err(f.nonce, "Config")>>), !.ev = IF cfg.herr THEN Append(@, <<a, "ErrorConfig">>) ELSE @]
-            ELSE [r EXCEPT !.s[a] = [st |-> "Pending", local |-> fresh, remote |-> f.nonce, at |-> t + Resend, left |-> Retries, deadline |-> 0, disc |-> "none"],
-                           !.out = Append(@, <<a, SynAck(f.nonce, fresh)>>)]
+            ELSE [r EXCEPT !.s[a] = [st |-> "Pending", local |-> fresh, remote |-> f.nonce, at |-> t + Resend, left |-> Retries, deadline |-> 0, disc |-> "none",
+                                     pAlloc |-> f.alloc, pRate |-> Field(f, "rate")],
+                           !.out = Append(@, <<a, SynAckL(f.nonce, fresh, cfg)>>)]
       [] f.ty = "ACK" ->
             IF e.st = "Pending" /\ f.nonce_ack = e.local
             THEN [r EXCEPT !.s[a].st = "Active", !.s[a].deadline = t + cfg.T, !.ev = Append(@, <<a, "Connect">>)]
@@ -138,7 +152,7 @@ SHandleAll(r, q, t, cfg) == IF q = <<>> THEN r ELSE SHandleAll(SHandle(r, Head(q
 STimer(r, a, t, cfg) ==
     LET e == r.s[a] IN
     CASE e.st = "Pending" /\ t >= e.at ->
-            IF e.left > 0 THEN [r EXCEPT !.s[a].at = t + Resend, !.s[a].left = e.left - 1, !.out = Append(@, <<a, SynAck(e.remote, e.local)>>)]
+            IF e.left > 0 THEN [r EXCEPT !.s[a].at = t + Resend, !.s[a].left = e.left - 1, !.out = Append(@, <<a, SynAckL(e.remote, e.local, cfg)>>)]
             ELSE [r EXCEPT !.s[a] = NoEntry, !.ev = IF cfg.herr THEN Append(@, <<a, "ErrorTimeout">>) ELSE @]
       [] e.st = "Closing" /\ t >= e.at ->
             IF e.left > 0 THEN [r EXCEPT !.s[a].at = t + Resend, !.s[a].left = e.left - 1, !.out = Append(@, <<a, Disc>>)]
